@@ -2,7 +2,10 @@
 
 use super::Mesh;
 use crate::{Point3, Result};
+#[cfg(not(feature = "verif"))]
 use std::collections::{HashMap, HashSet};
+#[cfg(feature = "verif")]
+use crate::verif::{HashMap, HashSet};
 
 pub struct MeshEdges<'a> {
     /// The original mesh associated with the edge structure
